@@ -71,7 +71,7 @@ ExpectedSrcImports(r) ==
 SrcFailing(r) ==
     {x \in {"SrcModuleName", "SrcArgs", "SrcDetails", "SrcContained", "SrcNothingImported", "NothingLoaded"} :
        \/ x = "SrcModuleName" /\ r.plugins /\ r.imports # ExpectedSrcImports(r)
-       \/ x = "SrcArgs" /\ r.plugins /\ r.beh # "absent"
+       \/ x = "SrcArgs" /\ r.plugins /\ r.beh # "absent" /\ r.fixture
              /\ (Len(r.calls) # 1 \/ (Len(r.calls) = 1 /\ ~SrcArgsOK(r, r.calls[1])))
        \/ x = "SrcDetails" /\ (r.has_details # (r.plugins /\ r.beh = "ok"))
        \/ x = "SrcDetails" /\ r.has_details /\ r.details_canon # r.expect_canon
